@@ -34,7 +34,7 @@ def build_files(ctx, d):
     src = os.path.join(common.REPO, 'tests', 'blackbox_tests')
     names = sorted(f for f in os.listdir(src) if f.endswith(('.po', '.pot', '.mo', '.pop')))
     if ctx.quick():
-        names = names[::3]
+        names = sorted(set(names[::3]) | {n for n in names if n.endswith('.pot')})
     files = []
     for n in names:
         shutil.copy(os.path.join(src, n), os.path.join(d, n))
@@ -46,6 +46,8 @@ def build_files(ctx, d):
             {'msgid': '{0} {foo} {bar} {2}', 'msgstr': 'x', 'flags': ['python-brace-format']},
             {'msgid': '{a} {b} {c} {d} {e}', 'msgstr': '{v} {w} {x} {y} {z}', 'flags': ['perl-brace-format']},
             {'msgid': '%(a)s %(b)s %(c)s %(d)s', 'msgstr': '%(w)s %(x)s %(y)s %(z)s %(a)d', 'flags': ['python-format']},
+            {'msgid': '%d gizmos enhanced', 'msgstr': '%s gizmos enhanced', 'flags': ['c-format', 'python-format']},
+            {'msgid': '{0} %d %(a)s {a}', 'msgstr': '{1} %s %(b)s {b}', 'flags': ['python-brace-format', 'perl-brace-format', 'c-format', 'python-format']},
             {'msgid': 'unusual', 'msgstr': '\x01\x02\x03\x7f\x85�﻿ a\xbf'},
             {'msgid': 'flags', 'msgstr': 'f', 'flags': ['c-format', 'no-c-format', 'python-format', 'possible-python-format', 'java-format', 'zzz', 'zzz', 'aaa', 'wrap', 'no-wrap', 'range:1..2', 'range:2..3']},
         ]},
@@ -56,6 +58,17 @@ def build_files(ctx, d):
         with open(os.path.join(d, name), 'w', encoding='utf-8') as f:
             f.write(pogen.render(cat))
         files.append(name)
+    # a template as xgettext writes it (untouched boilerplate comments): template-only rules must not depend on earlier files
+    pot = {'header_comments': ['SOME DESCRIPTIVE TITLE.', "Copyright (C) YEAR THE PACKAGE'S COPYRIGHT HOLDER", 'This file is distributed under the same license as the PACKAGE package.',
+                               'FIRST AUTHOR <EMAIL@ADDRESS>, YEAR.', ''],
+           'header_flags': ['fuzzy'],
+           'header': [('Project-Id-Version', 'PACKAGE VERSION'), ('Report-Msgid-Bugs-To', ''), ('POT-Creation-Date', '2012-11-01 14:42+0100'),
+                      ('PO-Revision-Date', 'YEAR-MO-DA HO:MI+ZONE'), ('Last-Translator', 'FULL NAME <EMAIL@ADDRESS>'), ('Language-Team', 'LANGUAGE <LL@li.org>'),
+                      ('Language', ''), ('MIME-Version', '1.0'), ('Content-Type', 'text/plain; charset=CHARSET'), ('Content-Transfer-Encoding', '8bit')],
+           'entries': [{'msgid': 'A quick brown fox', 'msgstr': ''}]}
+    with open(os.path.join(d, 'xgettext-template.pot'), 'w', encoding='utf-8') as f:
+        f.write(pogen.render(pot))
+    files.append('xgettext-template.pot')
     for i in range(8 if ctx.quick() else 60):
         cat, _ = pogen.hostile_catalog(rng, nslots=3)
         name = 'gen%d.%s' % (i, rng.choice(['po', 'pot']))
@@ -99,8 +112,10 @@ def check(ctx):
     # histories: the same file several times, and after every other file
     probe = ['brace-types.po']
     configs.append(('repeat', probe * 3, 2, []))
-    for f in rng.sample(files, 6 if ctx.quick() else 30):
-        configs.append(('history %s before probe' % f, [f] + probe, 3, []))
+    for pr in (['brace-types.po'], ['xgettext-template.pot']):
+        for f in rng.sample(files, 6 if ctx.quick() else 30) + ['brace-types.po', 'xgettext-template.pot']:
+            configs.append(('history %s before probe %s' % (f, pr[0]), [f] + pr, 3, []))
+            configs.append(('history %s after probe %s' % (f, pr[0]), pr + [f], 0, []))
     configs.append(('-l pl, seeds differ', None, None, None))   # handled below
 
     def run_cfg(cfg):
